@@ -128,7 +128,7 @@ Qed.
    hold for the real functions exactly as long as nu is below a limit that depends on p_th (measured
    on every run, evidence key boring_premise_end_lo_holds_up_to_nu: 8.6e6 for p_th = 0.01, 3.2e6
    for 0.02): beyond it the Student tail is within the interpolation error of the normal one, the
-   premise is false and SO IS THE CONCLUSION - c11_boring_needs_end_lo below and finding F21
+   premise is false and SO IS THE CONCLUSION - c11_boring_needs_end_lo below and finding finding C11-boring-huge-nu
    (reproduced with the real score_differential_genes on two clusters of 1e7 cells).  The others
    describe the setting (eps <= 0.5 <= ceil <= 1, p_th <= 1, boring_t >= 0). *)
 
@@ -551,3 +551,180 @@ Theorem c11_sound_full_holm : forall st mask x v up g, pair_wf x ->
   exists sc, nth_error (pi_scores x) g = Some sc /\ crit (st_th st) (st_exact st) sc.
 Proof. exact sdg_sound_full_holm_wf. Qed.
 Print Assumptions c11_sound_full_holm.
+
+(* ------------------------------------------------------------------ *)
+(* FROM THE SUMMARY STATISTICS (audit defect 4).  Model/Welch.v computes, from the two rows
+   (n, sum, sumsq, ge1) of the statistics file (Model/Stats.v `summary`; sums over D, sums of squares
+   over D*D), what the code computes before score_differential_genes' tests:
+     mean = sum/max(1,n), var = (sumsq - sum^2/max(1,n))/max(1,n-1)              (aggregate_stats)
+     t^2, sign(t), nu exactly, with the IEEE cases explicit (tnu)                  (_calculate_tt_nu)
+     pij = ge1/max(1,n), q1 = max, qdiff = |pij1-pij2|/max (or /1), fold = |mean1-mean2|
+     p = p_of_cdf of the ORACLE value t.cdf(t, nu) (cdfs, one per gene), 0.5 if skipped or NaN
+   tied to the real functions on exact inputs by tags 1150-1154 (harness: welch_cases).
+   sdg_stats st mask D H lo hi T b cdfs s1 s2 = score_differential_genes on that pair. *)
+
+(* soundness in terms of the statistics: a recorded gene g has both clusters >= n_cells_min, the
+   restricted-Holm value of the Welch p-values below p_th, is in the list, and its penetrance /
+   fold numbers - which ARE (stat_crit: exact equations, no rounding) max(pij), |dpij|/max, |dmean|
+   of rows g - are on or above the floors (strictly above the thresholds in exact mode) *)
+Theorem c11_sound_from_stats : forall st mask D H lo hi T b cdfs s1 s2 v up g,
+  0 < D ->
+  - st_S st < q1_min (st_th st) -> q1_min (st_th st) < q1_th (st_th st) ->
+  sdg_stats st mask D H lo hi T b cdfs s1 s2 = POk (v, up) -> nth_error v g = Some true ->
+  st_n_min st <= s_n s1 /\ st_n_min st <= s_n s2 /\
+  exists l1 l2 c1 c2,
+    cstats_of s1 = POk l1 /\ cstats_of s2 = POk l2 /\ nth_error l1 g = Some c1 /\ nth_error l2 g = Some c2 /\
+    (exists a, nth_error (approx_correct_ttest (2 * H) T (welch_pvalues H lo hi b (welch_genes D l1 l2) cdfs)) g = Some a /\ a < T) /\
+    in_list mask g /\
+    (0 <= c_ge1 c1 -> 0 <= c_ge1 c2 -> stat_crit (st_th st) (st_exact st) D (st_S st) c1 c2).
+Proof. exact sdg_stats_sound. Qed.
+Print Assumptions c11_sound_from_stats.
+
+(* ... against the INDEPENDENT computation the property asks for: exact two-sided Welch p-values
+   (no gene skipped: b = None) and the FULL Holm-Bonferroni correction.  Premise (about scipy's values
+   at the skipped genes; evaluated numerically by the harness on every gene that occurs, class
+   c11-boring-premise-false-on-occurring-value): the CDF value c of every skipped gene has
+   2c >= p_th and 2(1-c) >= p_th.  It is false for nu above a few million (finding, see
+   c11_boring_needs_end_lo). *)
+Theorem c11_sound_exact_welch : forall st mask D H lo hi T b cdfs s1 s2 v up g,
+  0 < D -> 0 < H -> 0 <= lo <= H -> H <= hi <= 2 * H -> T <= 2 * H ->
+  - st_S st < q1_min (st_th st) -> q1_min (st_th st) < q1_th (st_th st) ->
+  (forall l1 l2 gc c, cstats_of s1 = POk l1 -> cstats_of s2 = POk l2 ->
+       In gc (combine (welch_genes D l1 l2) cdfs) -> gbrg b gc = true -> gcdf gc = Some c ->
+       T <= 2 * c /\ T <= 2 * (2 * H - c)) ->
+  sdg_stats st mask D H lo hi T b cdfs s1 s2 = POk (v, up) -> nth_error v g = Some true ->
+  exists l1 l2, cstats_of s1 = POk l1 /\ cstats_of s2 = POk l2 /\
+    exists h, nth_error (correct_ttest (2 * H) 0 (welch_pvalues H lo hi None (welch_genes D l1 l2) cdfs)) g = Some h /\ h < T.
+Proof. exact sdg_stats_sound_exact_welch. Qed.
+Print Assumptions c11_sound_exact_welch.
+
+(* the decision vectors of the two routes coincide (every gene, not only the recorded ones) *)
+Theorem c11_welch_route_decisions : forall H lo hi T b tn cdfs,
+  0 < H -> 0 <= lo <= H -> H <= hi <= 2 * H -> T <= 2 * H ->
+  (forall gc c, In gc (combine tn cdfs) -> gbrg b gc = true -> gcdf gc = Some c ->
+                T <= 2 * c /\ T <= 2 * (2 * H - c)) ->
+  map (fun v => v <? T) (approx_correct_ttest (2 * H) T (welch_pvalues H lo hi b tn cdfs))
+  = map (fun v => v <? T) (correct_ttest (2 * H) 0 (welch_pvalues H lo hi None tn cdfs)).
+Proof. exact welch_route_decisions. Qed.
+Print Assumptions c11_welch_route_decisions.
+
+(* completeness in terms of the statistics *)
+Theorem c11_complete_from_stats : forall st mask D H lo hi T b cdfs s1 s2 v up g l1 l2 c1 c2 q1 qd f,
+  0 < st_S st ->
+  sdg_stats st mask D H lo hi T b cdfs s1 s2 = POk (v, up) ->
+  st_n_min st <= s_n s1 -> st_n_min st <= s_n s2 ->
+  cstats_of s1 = POk l1 -> cstats_of s2 = POk l2 -> nth_error l1 g = Some c1 -> nth_error l2 g = Some c2 ->
+  (exists a, nth_error (approx_correct_ttest (2 * H) T (welch_pvalues H lo hi b (welch_genes D l1 l2) cdfs)) g = Some a /\ a < T) ->
+  in_list mask g ->
+  to_S (st_S st) (q1_r c1 c2) = Some q1 -> to_S (st_S st) (qdiff_r c1 c2) = Some qd ->
+  to_S (st_S st) (fold_r D c1 c2) = Some f ->
+  strictly_passes (st_th st) (q1, qd, f) ->
+  nth_error v g = Some true.
+Proof. exact sdg_stats_complete. Qed.
+Print Assumptions c11_complete_from_stats.
+
+Theorem c11_stats_pair_wf : forall D S H lo hi T b cdfs s1 s2 x,
+  stats_pair D S H lo hi T b cdfs s1 s2 = POk x -> pair_wf x.
+Proof. exact stats_pair_wf. Qed.
+Print Assumptions c11_stats_pair_wf.
+
+(* zero-variance genes (the quantifier names them): variance 0 in both clusters, any sizes >= 1 - the
+   code's denominator sqrt(0) is replaced by 1.0e-10 (t = dmean/1e-10) and nu_denom = 0 by 1.0, so
+   nu = 0; scipy's t.cdf(., df=0) is NaN, hence (c11_welch_p_nan) the p-value is 1 and the gene is
+   never recorded, however far apart the means are.  (Observed on the real code on every run.) *)
+Theorem c11_welch_zero_variance : forall D c1 c2,
+  1 <= c_n c1 -> 1 <= c_n c2 -> fst (var_r D c1) = 0 -> fst (var_r D c2) = 0 ->
+  exists nud, welch_gene D c1 c2 = TN_tiny (fst (mdiff_r D c1 c2)) (snd (mdiff_r D c1 c2)) 0 nud.
+Proof. exact welch_zero_variance. Qed.
+Print Assumptions c11_welch_zero_variance.
+Theorem c11_welch_p_nan : forall H lo hi b g, 0 < H -> lo <= H <= hi -> welch_p H lo hi b g None = 2 * H.
+Proof. exact welch_p_nan. Qed.
+Print Assumptions c11_welch_p_nan.
+(* a cluster without cells: var/0, nu = NaN: p-value 1 whatever the oracle says *)
+Theorem c11_welch_empty_cluster : forall D c1 c2 H lo hi b c, 0 < H -> lo <= H <= hi ->
+  c_n c1 <= 0 \/ c_n c2 <= 0 -> welch_p H lo hi b (welch_gene D c1 c2) c = 2 * H.
+Proof. exact welch_p_empty_cluster. Qed.
+Print Assumptions c11_welch_empty_cluster.
+
+(* swap symmetry, proved: exchanging the clusters negates t and keeps t^2 and nu; |fold|, q1, qdiff
+   are the same numbers; skipping is symmetric *)
+Theorem c11_welch_swap_statistic : forall D c1 c2, welch_gene D c2 c1 = tnu_neg (welch_gene D c1 c2).
+Proof. exact welch_gene_swap. Qed.
+Print Assumptions c11_welch_swap_statistic.
+Theorem c11_welch_swap_boring : forall bn bd g, tnu_boring bn bd (tnu_neg g) = tnu_boring bn bd g.
+Proof. exact tnu_boring_neg. Qed.
+Print Assumptions c11_welch_swap_boring.
+Theorem c11_welch_swap_scores : forall D c1 c2,
+  fold_r D c2 c1 = (fst (fold_r D c1 c2), snd (fold_r D c2 c1)) /\ snd (fold_r D c2 c1) = snd (fold_r D c1 c2) /\
+  req (q1_r c2 c1) (q1_r c1 c2) /\
+  (0 <= c_ge1 c1 -> 0 <= c_ge1 c2 -> req (qdiff_r c2 c1) (qdiff_r c1 c2)).
+Proof. exact welch_scores_swap. Qed.
+Print Assumptions c11_welch_swap_scores.
+(* the p-value: equal when the oracle is symmetric at this gene and neither value is clipped ... *)
+Theorem c11_welch_swap_p : forall H lo hi c, 0 < H -> lo <= 2 * H - hi -> 2 * H - hi <= c <= hi ->
+  p_of_cdf H lo hi (Some (2 * H - c)) = p_of_cdf H lo hi (Some c).
+Proof. exact p_of_cdf_swap. Qed.
+Print Assumptions c11_welch_swap_p.
+(* ... and NOT in general: the clip interval [eps, ceil] is not symmetric (real values: 2.78e-139 one
+   way round, 2.22e-16 the other).  Both are far below any admissible p_th >= 1e-11 unless there are
+   > 45000 genes, but the scores -log(p) differ. *)
+Example c11_welch_swap_p_clip_caveat :
+  p_of_cdf 32 1 60 (Some 2) = 4 /\ p_of_cdf 32 1 60 (Some (2 * 32 - 2)) = 8.
+Proof. exact welch_p_swap_clip_differs. Qed.
+
+(* a concrete statistics file (D = 4): two clusters of 4 cells, gene 0 a marker (8 +- 0.5 against
+   0.25 +- 0.25), gene 1 with ZERO VARIANCE in both clusters (8 against 0: nu = 0, CDF NaN, never
+   recorded), gene 2 identical in both; and a ONE-CELL cluster (var = 0, 0/0 -> nu_denom = 1.0) *)
+Definition c11_sa := mk_summary 4 [128; 128; 1] [4104; 4096; 1] [4; 4; 1] [4; 4; 0] [4; 4; 0].
+Definition c11_sb := mk_summary 4 [4; 0; 1] [8; 0; 1] [2; 0; 1] [0; 0; 0] [0; 0; 0].
+Definition c11_s1 := mk_summary 1 [32; 32; 0] [1024; 1024; 0] [1; 1; 0] [1; 1; 0] [1; 1; 0].
+Example c11_from_stats_nonvacuous :
+  (exists x, stats_pair 4 1024 512 1 1023 10 None [Some 1023; None; Some 512] c11_sa c11_sb = POk x /\
+     pi_p x = [2; 1024; 1024] /\ pi_scores x = [(1024, 1024, 7936); (1024, 1024, 8192); (0, 0, 0)] /\
+     pi_mean1 x = [8192; 8192; 64] /\ pi_mean2 x = [256; 0; 64]) /\
+  sdg_stats c11_st None 4 512 1 1023 10 (Some (5, 2)) [Some 1023; None; Some 512] c11_sa c11_sb
+  = POk ([true; false; false], [false; false; false]) /\
+  (match cstats_of c11_sa, cstats_of c11_sb with
+   | POk a, POk b => map (fun g => match g with TN s _ _ _ _ => s | TN_tiny dn _ nun _ => 100 + nun | TN_nan => -100 end)
+                         (welch_genes 4 a b)
+   | _, _ => [] end) = [1; 100; 0] /\
+  (match cstats_of c11_s1, cstats_of c11_sb with
+   | POk a, POk b => map (fun g => match g with TN s _ _ nun _ => s * nun | TN_tiny dn _ nun _ => 100 + nun | TN_nan => -100 end)
+                         (welch_genes 4 a b)
+   | _, _ => [] end) = [65536; 100; - 2304].
+Proof.
+  split; [eexists; split; [vm_compute; reflexivity|]; repeat split|].
+  split; [vm_compute; reflexivity|]. split; vm_compute; reflexivity.
+Qed.
+
+(* ------------------------------------------------------------------ *)
+(* the gene-major tables: the pair-major table of ANY per-pair gene lists with indices below n_genes
+   is a well-formed compressed matrix (C13's wf_comp), so transpose_sparse_matrix_on_disk (C13's model,
+   every elements_at_a_time, chunk sizes >= 1) returns the transpose specification: a well-formed
+   table with n_genes rows, as many entries, storing (g, j) iff the pair-major table stores (j, g) *)
+Theorem c11_tables_transpose : forall rows n_genes E L Lc,
+  Forall (Forall (fun g => (g < n_genes)%nat)) rows -> (1 <= L)%nat -> (1 <= Lc)%nat ->
+  exists t, transpose (table_of rows) false n_genes None E L Lc = Ok t /\
+    let out := t_out t in
+    out = transpose_spec (table_of rows) false n_genes None /\
+    hd 1%nat (ptr out) = 0%nat /\ mono (ptr out) /\ length (ptr out) = S n_genes /\
+    last (ptr out) 0%nat = length (idx out) /\
+    length (idx out) = length (concat rows) /\
+    forall g j, (g < n_genes)%nat -> (j < length rows)%nat -> stored out g j = stored (table_of rows) j g.
+Proof. exact tables_transpose. Qed.
+Print Assumptions c11_tables_transpose.
+
+(* its hypothesis is met by the lists the model records: indices below the length of the validity mask *)
+Theorem c11_up_down_in_range : forall v u,
+  Forall (fun g => (g < length v)%nat) (fst (up_down (v, u))) /\ Forall (fun g => (g < length v)%nat) (snd (up_down (v, u))).
+Proof. exact up_down_lt. Qed.
+Print Assumptions c11_up_down_in_range.
+
+Example c11_tables_transpose_nonvacuous :
+  let rows := [[1; 4]; []; [0]; [2; 3; 5]; [4]]%nat in
+  Forall (Forall (fun g => (g < 6)%nat)) rows /\
+  (exists t, transpose (table_of rows) false 6 None 4 2 3 = Ok t /\
+     ptr (t_out t) = [0; 1; 2; 3; 4; 6; 7]%nat /\ idx (t_out t) = [2; 0; 3; 3; 0; 4; 3]%nat).
+Proof.
+  cbv zeta. split; [repeat constructor|]. eexists. split; [vm_compute; reflexivity|]. split; reflexivity.
+Qed.
